@@ -61,19 +61,20 @@ def seq_cases(tier, rng):
 
 ATOMS = {
     'var': ['x', 'name=x', 'expr="a"', 'expr="1+"', '"a"', '"1+"', 'lower', 'size=3', 'fmt=u', 'bogus=1', 'bogus',
-            'NAME=y', 'a="', 'null', 'html_quote', 'expr=a+1', 'expr'],
+            'NAME=y', 'a="', 'null', 'html_quote', 'expr=a+1', 'expr', 'LOWER', 'Html_Quote', 'SIZE=2', 'Fmt=u'],
     'in': ['x', 'name=x', 'expr="a"', 'expr="1+"', '"a"', 'mapping', 'size=3', 'start=b', 'orphan=1', 'prefix=p',
-           'prefix="a b"', 'sort_expr="1+"', 'reverse_expr="a"', 'bogus=1', 'sort=k', 'next', 'prefix', 'overlap'],
+           'prefix="a b"', 'sort_expr="1+"', 'reverse_expr="a"', 'bogus=1', 'sort=k', 'next', 'prefix', 'overlap', 'Mapping', 'REVERSE',
+           'Size=3', 'NEXT'],
     'if': ['x', 'name=x', 'expr="a"', 'expr="1+"', '"a"', '"1+"', 'bogus', 'mapping', 'y=1', '=x', 'EXPR="b"'],
     'unless': ['x', 'name=x', 'expr="a"', '"1+"', 'bogus', 'expr="1+"'],
-    'with': ['x', 'name=x', 'expr="a"', 'expr="1+"', '"a"', 'mapping', 'only', 'bogus', 'only=0', 'mapping="'],
+    'with': ['x', 'name=x', 'expr="a"', 'expr="1+"', '"a"', 'mapping', 'only', 'bogus', 'only=0', 'mapping="', 'ONLY', 'Mapping', 'Only=1'],
     'let': ['x=a', 'y="a"', 'z="1+"', 'x', '"a"', 'X=b', 'x=a"', 'x="a" y=b'],
     'try': ['x', 'name=x', '"a"', 'bogus=1', 'x y'],
     'raise': ['x', 'type=x', 'expr="a"', 'expr="1+"', '"a"', '"1+"', 'name=x', 'bogus'],
     'call': ['x', 'name=x', 'expr="a"', 'expr="1+"', '"a"', '"1+"', 'lower'],
     'return': ['x', 'name=x', 'expr="a"', 'expr="1+"', '"a"', '"1+"', 'lower'],
     'tree': ['x', 'name=x', 'expr="a"', 'expr="1+"', 'branches=b', 'branches_expr="c"', 'branches_expr="1+"', 'nowrap',
-             'prefix="a b"', 'sort', 'id=i', 'bogus', 'name', 'single', 'prefix=p'],
+             'prefix="a b"', 'sort', 'id=i', 'bogus', 'name', 'single', 'prefix=p', 'NOWRAP', 'Single', 'ID=i'],
     'comment': ['x', 'bogus=1', '"'],
 }
 CONT_ATOMS = {'elif': ATOMS['if'], 'else-if': ['a', 'name=a', '"a"', 'b', 'bogus=1', 'a ', 'expr="a"'],
